@@ -1,5 +1,117 @@
-(* Props/C17.v — property theorems only (placeholder while the proofs are being written). *)
-Require Import IP.Base.Bytes IP.Store.Storage IP.Store.FsStore.
-Theorem C17_placeholder : forall k, @lookup nat k [] = None.
+(* Props/C17.v — block storage is a faithful key-value map: property theorems only.
+   Models: Store/Storage.v (memstore, cidlink.Memory, storage/funcs.go fall-backs),
+           Store/FsStore.v (fsstore over a POSIX file-system model; sharding from Gen/FromGo.v). *)
+Require Import IP.Base.Bytes IP.Base.GoSem IP.Gen.FromGo IP.Store.Storage IP.Store.FsStore.
+Require Import IP.Proofs.StoreBase IP.Proofs.StoreMem IP.Proofs.StoreFs IP.Proofs.StoreRefuted.
+From Coq Require Import List Bool.
+Import ListNotations.
+
+(* --- the in-memory stores refine the finite map  (projected) key -> bytes ---------------------
+   For EVERY history inside the quantifier ([hist_ok]: handles exist, each projected key is only
+   ever given one content, the caller does not write to slices obtained from Peek) the model of
+   memstore / cidlink.Memory answers exactly as the specification [spec_run]: has / get /
+   get-stream / peek agree with the map, absent keys are absent, and a put changes the answers for
+   its own key only ([spec_put_other]).  cidlink.Memory is keyed by the CID's multihash by
+   documented design: its projection is [cid_hash]. *)
+Theorem C17_refines : forall cfg ops,
+  hist_ok (mc_proj cfg) (mc_storage_api cfg) spec_empty ops = true ->
+  mem_run cfg mem_empty ops = spec_run (mc_proj cfg) (mc_storage_api cfg) spec_empty ops.
+Proof. exact mem_refines. Qed.
+Print Assumptions C17_refines.
+
+Theorem C17_distinct_keys_never_alias : forall s pk pk' c,
+  pk <> pk' -> lookup pk' (s_map (s_put s pk c)) = lookup pk' (s_map s).
+Proof. exact spec_put_other. Qed.
+Print Assumptions C17_distinct_keys_never_alias.
+
+Example C17_refines_hyp_satisfiable :
+  hist_ok (mc_proj memstore_cfg) true spec_empty
+    [ONew [1;2;3]%N; OPut [7]%N 0; OMut 0 [9;9;9]%N; OGet [7]%N; OPeek [7]%N; OHas [8]%N] = true.
 Proof. reflexivity. Qed.
-Print Assumptions C17_placeholder.
+
+(* --- insulation: Put(k, slice h), then any writes of the caller to slices it owns (h included):
+       Get(k) still returns what h held at the time of the put ---------------------------------- *)
+Theorem C17_insulated : forall cfg m s k h c ws,
+  sim m s -> s_handle s h = Some c ->
+  forallb is_caller_write ws = true ->
+  hist_ok (mc_proj cfg) (mc_storage_api cfg) s (OPut k h :: ws ++ [OGet k]) = true ->
+  last (mem_run cfg m (OPut k h :: ws ++ [OGet k])) OUnit = OBytes c.
+Proof. exact mem_insulated. Qed.
+Print Assumptions C17_insulated.
+
+Example C17_insulated_hyp_satisfiable :
+  sim mem_empty spec_empty /\
+  hist_ok (mc_proj memstore_cfg) true spec_empty
+    [ONew [1;2;3]%N; OPut [7]%N 0; OMut 0 [9;9;9]%N; OGet [7]%N] = true.
+Proof. split. exact sim_empty. reflexivity. Qed.
+
+(* --- the file-system store, when the escaping function is applied and has the shape of base32
+       (injective, output in [A-Z2-7], non-empty on non-empty keys) ----------------------------- *)
+
+(* every path handed to a system call by any operation of any history has the base directory as a
+   PROPER prefix, and no "..", "." or "/" in what follows *)
+Theorem C17_fs_contained : forall cfg ops,
+  escaping cfg -> cfg_wf cfg -> Forall (op_len_ok cfg) ops ->
+  Forall (res_inside (f_base cfg)) (fs_run cfg (fstate0 cfg) ops).
+Proof. exact fs_contained. Qed.
+Print Assumptions C17_fs_contained.
+
+Theorem C17_fs_injective : forall cfg, escaping cfg ->
+  forall k1 k2 p, k1 <> [] -> k2 <> [] ->
+  key_len_ok (enc_key cfg k1) -> key_len_ok (enc_key cfg k2) ->
+  path_for_key cfg k1 = Some p -> path_for_key cfg k2 = Some p -> k1 = k2.
+Proof. exact fs_injective. Qed.
+Print Assumptions C17_fs_injective.
+
+(* the sharding functions generated from storage/sharding/sharding.go never panic; the last
+   component is the key, the others are 2-3 bytes of the key or '0' padding *)
+Theorem C17_shard_total : forall sh k, key_len_ok k ->
+  exists cs, shard_apply sh k = Some (cs ++ [k]) /\ length cs = shard_depth sh /\ Forall (shard_comp_ok k) cs.
+Proof. exact shard_apply_spec. Qed.
+Print Assumptions C17_shard_total.
+
+(* base32 without padding (fsstore's default escaping function) has the required alphabet *)
+Theorem C17_b32_alphabet : forall s, Forall b32_alpha (b32enc s).
+Proof. exact b32enc_alpha. Qed.
+Print Assumptions C17_b32_alphabet.
+
+(* --- the code AS IT STANDS (escapingFunc stored, never applied; commit("") = abort = success)
+       violates the property: witnesses by computation on the faithful model --------------------- *)
+Theorem C17_fs_contained_refuted : forall sh,
+  ~ Forall (res_inside wbase)
+      (fs_run (pinned_cfg wbase sh) (fstate0 (pinned_cfg wbase sh)) [ONew content1; OPut k_escape 0]).
+Proof. exact fs_contained_refuted. Qed.
+Print Assumptions C17_fs_contained_refuted.
+
+Theorem C17_fs_injective_refuted : forall sh,
+  k_alias1 <> k_alias2 /\
+  path_for_key (pinned_cfg wbase sh) k_alias1 = path_for_key (pinned_cfg wbase sh) k_alias2 /\
+  path_for_key (pinned_cfg wbase sh) k_alias1 <> None.
+Proof. exact fs_injective_refuted. Qed.
+Print Assumptions C17_fs_injective_refuted.
+
+Theorem C17_refines_refuted_alias : forall sh,
+  obs_of (fs_run (pinned_cfg wbase sh) (fstate0 (pinned_cfg wbase sh))
+            [ONew content1; OPut k_alias1 0; OHas k_alias2; OGet k_alias2])
+  = [OUnit; OOk; OBool true; OBytes content1].
+Proof. exact alias_observed. Qed.
+Print Assumptions C17_refines_refuted_alias.
+
+Theorem C17_refines_refuted_empty_put : forall sh,
+  obs_of (fs_run (pinned_cfg wbase sh) (fstate0 (pinned_cfg wbase sh)) [ONew content1; OPut [] 0; OGet []])
+  = [OUnit; OOk; OErr ENOENT].
+Proof. exact empty_key_put_refuted. Qed.
+Print Assumptions C17_refines_refuted_empty_put.
+
+Theorem C17_refines_refuted_empty_has : forall sh,
+  obs_of (fs_run (pinned_cfg wbase sh) (fstate0 (pinned_cfg wbase sh)) [ONew content1; OPut k_plain 0; OHas []])
+  = [OUnit; OOk; OBool true].
+Proof. exact empty_key_has_refuted. Qed.
+Print Assumptions C17_refines_refuted_empty_has.
+
+Theorem C17_refines_refuted_key_is_dir :
+  obs_of (fs_run (pinned_cfg wbase R12) (fstate0 (pinned_cfg wbase R12))
+            [ONew content1; OHas [46;46]%N; OPut [46;46]%N 0; OGet [46;46]%N])
+  = [OUnit; OBool true; OOk; OErr EISDIR].
+Proof. exact key_is_dir_refuted. Qed.
+Print Assumptions C17_refines_refuted_key_is_dir.
